@@ -1348,9 +1348,7 @@ func c14Exec(x *hysim.Run) {
 			x.Violate("reader-stuck-after-close", "reader %d did not return within 1s of Close", i)
 		}
 	}
-	time.Sleep(time.Millisecond)
-	synctest.Wait()
-	if al := x.Alive(); len(al) != 0 && !x.Violated() {
-		x.Violate("task-leak", "tasks still alive after Close: %v", al)
+	if al := x.WaitTasks(2 * time.Second); len(al) != 0 {
+		x.Violate("task-leak", "tasks still alive 2s after Close (reader / GC loops must end): %v", al)
 	}
 }
